@@ -1121,6 +1121,15 @@ func wrapCase(sc *Scenario) {
 	if sc.State != "U" && state != sc.State {
 		fail("state-changed", fmt.Sprintf("capability was %s, is %s afterwards", sc.State, state))
 	}
+	// an error answer that does not mean "no referrers API" is returned, not worked around
+	if sc.State == "U" && !sc.NoAPI && len(api) > 0 {
+		x := api[0]
+		if x.Status == 500 || x.Status == 403 || (x.Status == 404 && x.Dec.ErrorCode == "NAME_UNKNOWN") {
+			if err == nil || fell != 0 || state != "U" {
+				fail("fallback-on-error", fmt.Sprintf("the referrers API answered %d %s; Referrers returned %v, tag schema used: %v, capability %s", x.Status, x.Dec.ErrorCode, err, fell != 0, state))
+			}
+		}
+	}
 	// undisturbed runs of legal registries
 	clean := sc.CbFail < 0
 	for _, x := range api {
